@@ -99,10 +99,24 @@ def SQ(x):
 FACTS = []
 
 
+def selfcheck(name, params, hyps, goal, cofs):
+    """Schwartz-Zippel sanity check of the polynomial identity (so that a wrong cofactor is found here, not by a Z3 timeout)"""
+    import random
+    rnd = random.Random(1)
+    for _ in range(6):
+        env = {p: rnd.randrange(-10**6, 10**6) for p in params}
+        ev = lambda t: eval(t.replace("int", ""), {}, dict(env))
+        lhs = ev(goal[0].z()) - ev(goal[1].z())
+        rhs = sum(ev(q) * (ev(l.z()) - ev(r.z())) for q, (l, r) in zip(cofs, hyps))
+        if lhs != rhs:
+            raise SystemExit("SELF-CHECK FAILED: %s" % name)
+
+
 def fact(name, doc, params, hyps, goal, cofs, canon=()):
     """hyps: list of (lhs E, rhs E); goal: (lhs E, rhs E); cofs: list of integer-polynomial strings, one per hypothesis.
     canon: parameter names that must be canonical because they occur as a bare side of the goal"""
     assert len(hyps) == len(cofs)
+    selfcheck(name, params, hyps, goal, cofs)
     out = []
     out.append("/// %s" % doc)
     out.append("pub proof fn %s(%s)" % (name, ", ".join("%s: int" % p for p in params)))
@@ -142,37 +156,55 @@ def fact(name, doc, params, hyps, goal, cofs, canon=()):
 
 
 # ------------------------------------------------------------------------------------------------------------------------------------
+def atoms_of(ex, acc):
+    if ex.kind == "atom":
+        if ex.name not in acc:
+            acc.append(ex.name)
+    elif ex.kind != "lit":
+        atoms_of(ex.a, acc)
+        if ex.b is not None:
+            atoms_of(ex.b, acc)
+    return acc
+
+
+def ident(name, doc, lhs, rhs, canon=(), order=None):
+    """an identity without hypotheses; parameters = the atoms in order of appearance (or `order`)"""
+    params = atoms_of(rhs, atoms_of(lhs, []))
+    if order:
+        assert sorted(order) == sorted(params)
+        params = list(order)
+    fact(name, doc, params, [], (lhs, rhs), [], canon=canon)
+
+
+a, b, c, w = A("a"), A("b"), A("c"), A("w")
 e, f, g, h = A("e"), A("f"), A("g"), A("h")
 x, y, z, t, d = A("x"), A("y"), A("z"), A("t"), A("d")
-cc, k, ii = A("cc"), A("k"), A("ii")
+cc, k, ii, m = A("cc"), A("k"), A("ii"), A("m")
 one = L(1)
 
+# ---- generic ---------------------------------------------------------------------------------------------------------------------------
+ident("lemma_r2g_dist_sub", "a c - b c == (a - b) c", a * c - b * c, (a - b) * c, order=["a", "b", "c"])
+ident("lemma_r2g_dist_one", "(1 + w) c == c + w c", (one + w) * c, c + w * c)
+ident("lemma_r2g_diff_sq", "(a - b)(a + b) == a^2 - b^2", (a - b) * (a + b), SQ(a) - SQ(b))
+ident("lemma_r2g_mul_sub", "(a - b) m == a m - b m", (a - b) * m, a * m - b * m)
+
 # ---- Part A: from the point to the state -------------------------------------------------------------------------------------------
-fact("lemma_r2g_e", "2XY two ways: X (Y + Y) == (X + Y)^2 - (Y^2 + X^2)   [BatchCompressState::from vs ProjectivePoint::double]",
-     ["x", "y"], [], (x * (y + y), SQ(x + y) - (SQ(y) + SQ(x))), [])
-
-xa, ya = A("xa"), A("ya")
-fact("lemma_r2g_curve_proj",
-     "projective curve equation with T: Z^2 + d T^2 == Y^2 - X^2, from the affine equation at (xa, ya) = (X/Z, Y/Z) and T == xa ya Z",
-     ["x", "y", "z", "t", "d", "xa", "ya"],
-     [(xa * z, x), (ya * z, y), (SQ(ya) - SQ(xa), one + d * (SQ(xa) * SQ(ya))), ((xa * ya) * z, t)],
-     (SQ(z) + SQ(t) * d, SQ(y) - SQ(x)),
-     ["0 - (xa * z + x)", "(ya * z + y)", "0 - (z * z)", "0 - d * ((xa * ya) * z + t)"])
-
+ident("lemma_r2g_e", "2XY two ways: X (Y + Y) == (X + Y)^2 - (Y^2 + X^2)   [BatchCompressState::from vs ProjectivePoint::double]",
+      x * (y + y), SQ(x + y) - (SQ(y) + SQ(x)))
+ident("lemma_r2g_sq_e", "(X (Y + Y))^2 == 4 (X^2 Y^2)", SQ(x * (y + y)), L(4) * (SQ(x) * SQ(y)))
+ident("lemma_r2g_dtz", "(d P) z == (P z) d", (d * a) * z, (a * z) * d, order=["a", "d", "z"])
+ident("lemma_r2g_assoc", "a (b c) == (a b) c", a * (b * c), (a * b) * c)
 dtt, ff = A("dtt"), A("ff")
 fact("lemma_r2g_h", "Z^2 - dT^2 == 2 Z^2 - F when Z^2 + dT^2 == F",
      ["z", "dtt", "ff"], [(SQ(z) + dtt, ff)], (SQ(z) - dtt, L(2) * SQ(z) - ff), ["0 - 1"])
-
-Hh = SQ(z) - SQ(t) * d
-Gg = SQ(y) + SQ(x)
-Ee = x * (y + y)
-fact("lemma_r2g_relation",
-     "h^2 - g^2 == (a - d) e^2 for (e, f, g, h) = (2XY, Z^2 + dT^2, Y^2 + X^2, Z^2 - dT^2), from XY == ZT and the projective curve equation",
-     ["x", "y", "z", "t", "d", "cc"],
-     [(x * y, z * t), (SQ(z) + SQ(t) * d, SQ(y) - SQ(x)), (cc, (-one) - d)],
-     (SQ(Hh) - SQ(Gg), cc * SQ(Ee)),
-     ["4 * d * (x * y + z * t)", "((z * z + (t * t) * d) + (y * y - x * x))", "0 - 4 * (x * x) * (y * y)"],
-     canon=["cc"])
+se = A("se")
+pp, qq, rr, ab, cw = A("pp"), A("qq"), A("rr"), A("ab"), A("cw")
+ident("lemma_r2g_split3", "p - r == (p - q) + (q - r)", pp - rr, (pp - qq) + (qq - rr), order=["pp", "qq", "rr"])
+ident("lemma_r2g_sqdiff4", "(c - w)^2 - (c + w)^2 == -(4 (c w))", SQ(c - w) - SQ(c + w), -(L(4) * (c * w)))
+fact("lemma_r2g_rel_fin", "-(4 cw) + -(4 ab) == (a - d)(4 ab) when cw == ab d and (a - d) == -1 - d", ["ab", "cw", "d", "cc"],
+     [(cw, ab * d), (cc, (-one) - d)],
+     ((-(L(4) * cw)) + (-(L(4) * ab)), cc * (L(4) * ab)),
+     ["0 - 4", "0 - 4 * ab"], canon=["cw", "cc"])
 
 # ---- Part B: from the state to the encoding ------------------------------------------------------------------------------------------
 eg, fh, inv = A("eg"), A("fh"), A("inv")
@@ -180,82 +212,39 @@ fact("lemma_r2g_zinv", "fh * (eg * inv) == 1 when (eg * fh) * inv == 1", ["eg", 
      [((eg * fh) * inv, one)], (fh * (eg * inv), one), ["1"])
 fact("lemma_r2g_tinv", "eg * (fh * inv) == 1 when (eg * fh) * inv == 1", ["eg", "fh", "inv"],
      [((eg * fh) * inv, one)], (eg * (fh * inv), one), ["1"])
-fact("lemma_r2g_u2", "X'Y' == T'Z' for the doubled point: (e h)(g f) == (e g)(f h)", ["e", "f", "g", "h"], [],
-     ((e * h) * (g * f), (e * g) * (f * h)), [])
+ident("lemma_r2g_u2", "X'Y' == T'Z' for the doubled point: (e h)(g f) == (e g)(f h)", (e * h) * (g * f), (e * g) * (f * h), order=["e", "f", "g", "h"])
 fact("lemma_r2g_u1", "u1 = (Z' + Y')(Z' - Y') == f^2 ((a - d) e^2)", ["e", "f", "g", "h", "cc"],
      [(SQ(h) - SQ(g), cc * SQ(e))],
      (((f * h) + (g * f)) * ((f * h) - (g * f)), SQ(f) * (cc * SQ(e))), ["f * f"])
-fact("lemma_r2g_rot_x", "(g f) i == (f i) g", ["f", "g", "ii"], [], ((g * f) * ii, (f * ii) * g), [])
-
+ident("lemma_r2g_rot_x", "(g f) i == (f i) g", (g * f) * ii, (f * ii) * g, order=["f", "g", "ii"])
 J, u1, u2, T, Z = A("jj"), A("u1"), A("u2"), A("tt"), A("zz")
 hypA = ((u1 * SQ(u2)) * SQ(J), one)          # v * J^2 == 1   (contract of invsqrt on a non-zero square v = u1 u2^2)
-zA = "((u1 * (u2 * u2)) * (jj * jj) - 1int)"
 fact("lemma_r2g_z_inv", "z_inv Z' == 1 for z_inv = (J u1)(J u2) T', when u2 == T' Z' and J^2 (u1 u2^2) == 1",
      ["jj", "u1", "u2", "tt", "zz"],
      [hypA, (u2, T * Z)],
      ((((J * u1) * (J * u2)) * T) * Z, one),
      ["1", "0 - ((jj * u1) * (jj * u2))"], canon=["u2"])
+# factorisations of the last factor of s
+ident("lemma_r2g_plain_q_p", "Z' - Y' == f (h - g)", (f * h) - (g * f), f * (h - g), order=["f", "g", "h"])
+ident("lemma_r2g_plain_q_n", "Z' - (-Y') == f (h - (-g))", (f * h) - (-(g * f)), f * (h - (-g)), order=["f", "g", "h"])
+ident("lemma_r2g_rot_q_p", "Z' - i X' == h (f - e i)", (f * h) - ((e * h) * ii), h * (f - e * ii), order=["e", "f", "h", "ii"])
+ident("lemma_r2g_rot_q_n", "Z' - (-(i X')) == h (f + e i)", (f * h) - (-((e * h) * ii)), h * (f + e * ii), order=["e", "f", "h", "ii"])
+fact("lemma_r2g_rot_n_p", "f i - (-e) == i (f - e i) when i^2 == -1", ["e", "f", "ii"], [(SQ(ii), -one)],
+     ((f * ii) - (-e), ii * (f - e * ii)), ["e"])
+fact("lemma_r2g_rot_n_n", "f i - (-(-e)) == i (f + e i) when i^2 == -1", ["e", "f", "ii"], [(SQ(ii), -one)],
+     ((f * ii) - (-(-e)), ii * (f + e * ii)), ["0 - e"])
 
-qi = A("qi")
-Xq = "(((f * e) * u2) * qi)"
-fact("lemma_r2g_square", "v = u1 u2^2 is the inverse of the square of k / (f e u2), when u1 == f^2 ((a-d) e^2) and k^2 (a-d) == 1",
-     ["u1", "u2", "f", "e", "cc", "k", "qi"],
-     [(u1, SQ(f) * (cc * SQ(e))), (((f * e) * u2) * qi, one), (SQ(k) * cc, one)],
-     ((u1 * SQ(u2)) * SQ(k * qi), one),
-     ["(u2 * u2) * ((k * qi) * (k * qi))", "%s + 1" % Xq, "%s * %s" % (Xq, Xq)], canon=["u1"])
-
-hypB = (u1, SQ(f) * (cc * SQ(e)))
-hypC = (SQ(k) * cc, one)
-tinv = A("tinv")
-hypD = ((e * g) * tinv, one)
-for (nm, y2, g2) in (("p", g * f, g), ("n", -(g * f), -g)):
-    Dd = (J * u2) * ((f * h) - y2)
-    hg = (h - g2)
-    hgz = hg.z()
-    fact("lemma_r2g_plain_d_%s" % nm,
-         "not rotated, Y' %s: (den2 (Z' - y))^2 ((a-d) e^2) == (h - g')^2" % ("kept" if nm == "p" else "negated"),
-         ["jj", "u1", "u2", "e", "f", "g", "h", "cc"],
-         [hypA, hypB],
-         (SQ(Dd) * (cc * SQ(e)), SQ(hg)),
-         ["%s * %s" % (hgz, hgz), "0 - ((jj * jj) * (u2 * u2)) * (%s * %s)" % (hgz, hgz)], canon=["u1"])
-    Bb = hg * (k * (g2 * tinv))
-    Xd = "((e * g) * tinv)"
-    fact("lemma_r2g_plain_b_%s" % nm,
-         "not rotated, g %s: ((h - g')(k (g' Tinv)))^2 ((a-d) e^2) == (h - g')^2" % ("kept" if nm == "p" else "negated"),
-         ["e", "g", "h", "cc", "k", "tinv"],
-         [hypC, hypD],
-         (SQ(Bb) * (cc * SQ(e)), SQ(hg)),
-         ["(%s * %s) * (%s * %s)" % (hgz, hgz, Xd, Xd), "(%s * %s) * (%s + 1)" % (hgz, hgz, Xd)])
-
-hypE = (u2, (e * g) * (f * h))
-hypF = (SQ(ii), -one)
-for (nm, s) in (("p", 1), ("n", -1)):
-    yrot = (e * h) * ii                       # y = iX' = (e h) i
-    y2 = yrot if s == 1 else -yrot
-    Q = (f * h) - y2                          # Z' - y2
-    g1 = -e
-    g2 = g1 if s == 1 else -g1
-    Bb = ((f * ii) - g2) * (ii * (g2 * tinv))
-    W = "((e * g) * (f * h))"
-    X = "((e * g) * tinv)"
-    Fh = "(ii * ii + 1)"
-    Rr = "(f - (%d) * e * ii)" % s
-    fact("lemma_r2g_rot_b_%s" % nm,
-         "rotated, g %s: B^2 u2^2 == (f e)^2 (Z' - y)^2 for B = (f i - g')(i (g' Tinv)), y = +-(e h) i" % ("= -e" if nm == "p" else "= e"),
-         ["e", "f", "g", "h", "ii", "tinv", "u2"],
-         [hypD, hypE, hypF],
-         (SQ(Bb) * SQ(u2), (SQ(f) * SQ(e)) * SQ(Q)),
-         ["(%s + 1) * (e * e) * (ii * ii) * ((f * ii + (%d) * e) * (f * ii + (%d) * e)) * ((f * h) * (f * h))" % (X, s, s),
-          "(%s * %s) * (u2 + %s)" % (Bb.z(), Bb.z(), W),
-          "(e * e) * ((f * h) * (f * h)) * ((f * f) * %s - 2 * %s * f)" % (Fh, Rr)], canon=["u2"])
-
-Qa = A("q")
-fact("lemma_r2g_rot_d", "rotated: ((den1 k) q)^2 u2^2 == (f e)^2 q^2 for den1 = J u1",
-     ["jj", "u1", "u2", "e", "f", "cc", "k", "q"],
-     [hypA, hypB, hypC],
-     (SQ(((J * u1) * k) * Qa) * SQ(u2), (SQ(f) * SQ(e)) * SQ(Qa)),
-     ["u1 * (k * k) * (q * q)", "(k * k) * (q * q)", "(f * f) * (e * e) * (q * q)"], canon=["u1"])
-
+# ---- monomial regroupings (squares are atoms) ------------------------------------------------------------------------------------------
+sj, su2, sf, sr, sk, sg, st, sqq, sh, srho, si, sqi = (A(n) for n in ("sj", "su2", "sf", "sr", "sk", "sg", "st", "sq", "sh", "srho", "si", "sqi"))
+ident("lemma_r2g_m_square", "v r^2 regrouped: (sf (cc se)) su2 (sk sqi) == (sk cc)(((sf se) su2) sqi)",
+      ((sf * (cc * se)) * su2) * (sk * sqi), (sk * cc) * (((sf * se) * su2) * sqi))
+ident("lemma_r2g_m_plain_d", "((sj su2)(sf sr)) m == sr (((sf m) su2) sj)", ((sj * su2) * (sf * sr)) * m, sr * (((sf * m) * su2) * sj))
+ident("lemma_r2g_m_plain_b", "(sr (sk (sg st)))(cc se) == sr ((sk cc)((se sg) st))", (sr * (sk * (sg * st))) * (cc * se), sr * ((sk * cc) * ((se * sg) * st)))
+ident("lemma_r2g_m_rot_d1", "((((sj (u1 u1)) sk) sq) su2 == ((u1 su2) sj)(u1 (sk sq))",
+      (((sj * (u1 * u1)) * sk) * sqq) * su2, ((u1 * su2) * sj) * (u1 * (sk * sqq)))
+ident("lemma_r2g_m_rot_d2", "(sf (cc se))(sk sq) == (sk cc)((sf se) sq)", (sf * (cc * se)) * (sk * sqq), (sk * cc) * ((sf * se) * sqq))
+ident("lemma_r2g_m_rot_b", "((si srho)(si (se st)))((se sg)(sf sh)) == (si si)(((se sg) st)((sf se)(sh srho)))",
+      ((si * srho) * (si * (se * st))) * ((se * sg) * (sf * sh)), (si * si) * (((se * sg) * st) * ((sf * se) * (sh * srho))))
 
 HEADER = """// GENERATED by tools/ris2_gen_algebra.py — do not edit (regenerate; `tools/ris2_gen_algebra.py --check` compares). Unit RIS2.
 // Field identities behind RistrettoPoint::double_and_compress_batch, each PROVED by lifting both sides to integer polynomials
